@@ -470,12 +470,13 @@ ScanBlockScalar(t, s0, literal) ==
                                 ELSE ind0
                       s5 == f.s
                   IN IF Peek(t, s5, 0) \in Z
-                     THEN LET contents == IF h.chomp = "-" THEN <<>>
-                                          ELSE IF s5.line = hm[2] THEN <<>>
-                                          ELSE IF h.chomp = "" THEN cbreak
-                                          ELSE IF f.br = <<>> THEN cbreak ELSE f.br
+                     THEN \* no content line: empty, except under keep chomping one break per empty line
+                          \* (a last line of spaces without a break counts as an empty line)
+                          LET contents == IF h.chomp = "+" /\ s5.line # hm[2]
+                                          THEN (IF s5.col > 0 THEN Append(f.br, "\n") ELSE f.br)
+                                          ELSE <<>>
                           IN <<s5, Tok("Scalar", hm, Mark(s5), contents, style)>>
-                     ELSE IF s5.col < indent /\ s5.col > s5.indent THEN <<Fail(s5, "wrongly indented line in block scalar"), <<>>>>
+                     ELSE IF s5.col < indent /\ s5.col > s5.indent /\ ~(s5.col = 0 /\ IsDocInd(t, s5)) THEN <<Fail(s5, "wrongly indented line in block scalar"), <<>>>>
                      ELSE LET cm == Mark(s5)
                               a == BSContent(t, [s |-> s5, str |-> <<>>, lb |-> <<>>, tb |-> f.br, lblank |-> FALSE], indent, literal)
                               s6 == a.s
